@@ -44,6 +44,10 @@ func note(op []string, res string) {
 		k = "resp-" + op[3]
 	case "shutby":
 		k = "shutby"
+	case "rr":
+		if f := strings.Fields(res); len(f) >= 3 {
+			k = "rr-" + f[2]
+		}
 	case "kill", "shut", "stake", "unstake", "collect":
 		k = op[0] + "-" + op[1]
 	}
